@@ -91,7 +91,9 @@ def shrink(eng, record, fkey, known, budget=300):
                 evs = copy.deepcopy(best['events'])
                 del evs[i][field]
                 try_events(evs)
-    for nd in (1, 2, 3):
+    # quantities are not simplified for cross-configuration records: a rounder number of another magnitude can move the
+    # script into a regime where coarse replicas legitimately disagree, under the same finding key
+    for nd in ((1, 2, 3) if best.get('engine') != 'C' else ()):
         for i in range(len(best['events'])):
             ev = best['events'][i]
             for field in ('q', 'cap'):
